@@ -5,11 +5,11 @@ from verifkit import read_lines
 REQUIRED = []  # filled below (kept as a module-level list so deleting a theorem is detected)
 
 REQUIRED += ["DaeVerif.C16.Props." + n for n in [
-    "dead_only_after_threshold", "threshold_reached_kills", "below_threshold_stays",
+    "dead_only_after_threshold", "threshold_reached_kills", "below_threshold_stays", "kth_consecutive_failure_kills",
     "forced_report_kills_immediately", "escalation_takes_all_types_down", "escalation_only_after_three_deaths",
     "success_revives_and_clears", "data_udp_traffic_revives", "traffic_success_clears_traffic_count",
     "ignorable_never_counts", "canceled_probe_never_counts",
-    "suppressed_failures_dont_count", "suppression_window",
+    "suppressed_failures_dont_count", "suppression_window", "suppression_steps",
     "callbacks_on_edges_only", "callbacks_on_edges_only_history",
     "groups_see_state",
     "group_callbacks_are_edges", "random_policy_never_writes", "kernel_bit",
@@ -245,6 +245,12 @@ def run(ctx):
         "single-threaded event semantics: the harness serialises events; interleavings of concurrent reports/probes are not modelled",
         "classification of concrete Go errors into ignorable/counted is tied only on the harness's error pool",
         "testing/synctest virtual clock stands for the wall clock (suppression window, failure TTL)",
+        "the latency oracle is circular by construction: the value handed to the model is what the real set recorded "
+        "(dialerToLatency); a set reading the wrong statistic/collection is invisible here (C15's subject)",
+        "the kernel bit is tied per (outbound, type) slot for ONE generation; two generations sharing outbound ids on one map "
+        "are covered only through the closure guards (closed/retired/dryrun: tied + Props.kernel_callback_guards)",
+        "compared state is projected (main_canon): dead-slot counters, NetworkType variant and cross-slot order of callbacks, "
+        "slice order / sorting latency / identity of the best node are NOT compared (outside C16; C15 covers selection)",
     ]
     ctx.prove(["DaeVerif.C16.Props"], ["DaeVerif.C16.Props"], ["DaeVerif/C16/*.lean"], extra_targets=["c16drv"])
     ctx.required_theorems(REQUIRED)
@@ -275,7 +281,7 @@ def run(ctx):
         if ln == 0:
             ctx.report(f"stream lengths differ: {op}", {"stream": "c16"})
             continue
-        fi, fm = _fields(im), _fields(mo)
+        fi, fm = _fields(main_canon(im)), _fields(main_canon(mo))
         diff = [k for k in fi if fi.get(k) != fm.get(k)] or ["?"]
         ctx.report(f"real dialer/group code differs from the proved model at line {ln} op `{op[:80]}` in {diff}: "
                    f"impl {[fi.get(k) for k in diff]} model {[fm.get(k) for k in diff]}",
@@ -321,6 +327,9 @@ def run(ctx):
     ctx.samples = [l for l in op_lines if l.startswith(("probe", "tfail", "floor", "inherit", "group"))][:8]
     ctx.cov["input_distribution"] = c
     ctx.assumptions += [
+        "kernel-bit clause: the non-init callback writes only when the closure is built with dryrun=false, i.e. dial_mode: ip "
+        "(control_plane.go: disableKernelAliveCallback := dialMode != ip); NewControlPlane's wiring of that flag and of the "
+        "outbound ids is not executed by the check",
         "histories are generated (seeded): 1-4 nodes per generation sharing 0-2 proxy addresses, 0-4 groups per generation "
         "(policies min_last/min_avg/min_moving/random/fixed), up to ~110 events per scenario, reload generations included",
     ]
